@@ -1,24 +1,21 @@
-(** accept (impl_nio_read) and connect: the blocking mode is restored and a non-blocking caller
-    never waits (C18 only; these calls move no bytes). *)
+(** accept (impl_nio_read) and connect: the blocking mode is restored; the request log of a
+    non-blocking caller is fine as long as no readiness wait was requested (C18 only; these calls
+    move no bytes). *)
 From OCV Require Import Base.Prelude Syscall.SockIO Syscall.SockIOOracle Syscall.SockIOProofs Syscall.SockIOInv.
 From Coq Require Import ZifyBool ZifyNat.
 Open Scope Z_scope.
 
-Definition Final18 (sh : shape) (nb0 : bool) (r : Z) (s : st) : Prop :=
+Definition Final18 (sh : shape) (nb0 : bool) (s : st) : Prop :=
   s_nb s = nb0 /\
-  (nb0 = true -> s_waits s = [] /\
-     exists wb, fold_left (c18_step sh) (s_reqs s) (true, false) = (true, wb) /\
-       (wb = true -> r = -1 /\ last_err (s_reqs s) = Some (s_errno s))).
+  (nb0 = true -> s_waits s = [] -> fold_left (c18_step sh) (s_reqs s) (true, false) = (true, false)).
 
-Lemma final18_C18 : forall c r s data, Final18 (c_shape c) (c_nb c) r s ->
+Lemma final18_C18 : forall c r s data, Final18 (c_shape c) (c_nb c) s ->
+  (c_nb c = true -> s_waits s = []) ->
   ok_C18_obs c (mkObs r (if r =? -1 then s_errno s else 0) (s_reqs s) data (s_waits s) (s_nb s) false) = true.
 Proof.
-  intros c r s data (NB & H). unfold ok_C18_obs. cbn [o_nb_after o_waits o_reqs o_ret o_errno].
+  intros c r s data (NB & H) ND. unfold ok_C18_obs. cbn [o_nb_after o_waits o_reqs o_ret o_errno].
   rewrite NB, eqb_reflx. cbn [andb]. destruct (c_nb c) eqn:N; [|reflexivity].
-  destruct (H eq_refl) as (W0 & wb & E & Wb). rewrite W0, E. cbn [andb].
-  destruct wb; [|reflexivity]. destruct (Wb eq_refl) as [-> L]. cbn [andb].
-  destruct (Nat.eqb (kernel_moved (s_reqs s)) O); [|reflexivity].
-  change (-1 =? -1) with true. cbv iota. rewrite L. cbn [option_eqb]. now rewrite Z.eqb_refl.
+  rewrite (ND eq_refl), (H eq_refl (ND eq_refl)). reflexivity.
 Qed.
 
 (** ** accept *)
@@ -28,68 +25,52 @@ Section Accept.
 
   Definition AccInv (s : st) : Prop :=
     s_nb s = true /\
-    (nb0 = true -> s_waits s = [] /\ fold_left (c18_step SAccept) (s_reqs s) (true, false) = (true, false)).
-
-  Definition AccFin (r : Z) (s : st) : Prop :=
-    s_nb s = true /\
-    (nb0 = true -> s_waits s = [] /\
-       exists wb, fold_left (c18_step SAccept) (s_reqs s) (true, false) = (true, wb) /\
-         (wb = true -> r = -1 /\ last_err (s_reqs s) = Some (s_errno s))).
+    (nb0 = true -> s_waits s = [] -> fold_left (c18_step SAccept) (s_reqs s) (true, false) = (true, false)).
 
   Lemma acc_body_ok : forall x left s, AccInv s ->
     match acc_body (negb nb0) limit start x left s with
-    | AExit r' s' => AccFin r' s'
+    | AExit r' s' => AccInv s'
     | AAgain left' r' s' => AccInv s' /\ exists e, fail_errno (snd x) = Some e /\ (e = EAGAIN \/ e = EINTR)
     end.
   Proof.
-    intros x left s (NB & H). unfold acc_body, AccInv, AccFin.
+    intros x left s (NB & H). unfold acc_body, AccInv.
     destruct (fail_errno (snd x)) as [e|] eqn:FE.
     - rewrite (kcall_fail _ _ _ _ _ _ FE). change (negb (-1 =? -1)) with false. cbv beta iota.
       cbn [s_errno].
       set (s1 := mkSt _ e _ _ _ _ _).
-      assert (F1 : nb0 = true -> s_waits s1 = [] /\
+      assert (F1 : nb0 = true -> s_waits s1 = [] ->
                    fold_left (c18_step SAccept) (s_reqs s1) (true, false) = (true, e =? EAGAIN)).
-      { intros N. destruct (H N) as [W0 E]. unfold s1. cbn [s_waits s_reqs]. split; [exact W0|].
-        rewrite fold_snoc, E. reflexivity. }
-      assert (L1 : last_err (s_reqs s1) = Some (s_errno s1)) by (unfold s1; cbn [s_reqs s_errno]; apply last_err_snoc).
+      { intros N W0. unfold s1 in *. cbn [s_waits s_reqs] in *. rewrite fold_snoc, (H N W0). reflexivity. }
       assert (NB1 : s_nb s1 = true) by exact NB.
       destruct (classify_cases e) as [[K Ee] | [[K Ee] | [K [Ne1 Ne2]]]]; rewrite K.
-      + destruct (Bool.bool_dec nb0 true) as [N|N].
-        * rewrite N. cbn [negb]. split; [exact NB1|]. intros _. destruct (F1 N) as [W1 E1].
-          split; [exact W1|]. exists (e =? EAGAIN). split; [exact E1|]. intros _. split; [reflexivity | exact L1].
-        * apply not_true_is_false in N. rewrite N. cbn [negb].
-          unfold do_wait. destruct (s_wfail s1) as [|b t]; [|destruct b]; cbn [negb];
-            (split; [first [exact NB1 | split; [exact NB1 | intros; congruence]] | ]);
-            first [ intros; congruence | exists e; split; [reflexivity | left; exact Ee] ].
+      + unfold do_wait. destruct (s_wfail s1) as [|b t]; [|destruct b]; cbn [negb];
+          repeat match goal with
+                 | |- _ /\ _ => split
+                 | |- s_nb _ = true => exact NB1
+                 | |- _ -> _ -> _ => intros _ W0; cbn [s_waits] in W0; destruct (s_waits s1); discriminate
+                 | |- exists _, _ => exists e; split; [reflexivity | left; exact Ee]
+                 end.
       + split; [|exists e; split; [reflexivity | right; exact Ee]]. split; [exact NB1|].
-        intros N. destruct (F1 N) as [W1 E1]. split; [exact W1|]. rewrite E1. subst e. reflexivity.
-      + split; [exact NB1|]. intros N. destruct (F1 N) as [W1 E1]. split; [exact W1|].
-        exists false. split; [|intros; discriminate]. rewrite E1. f_equal. lia.
+        intros N W0. rewrite (F1 N W0). subst e. reflexivity.
+      + split; [exact NB1|]. intros N W0. rewrite (F1 N W0). f_equal. lia.
     - rewrite (kcall_succ _ _ _ _ _ FE). cbn [positions flat_map firstn]. rewrite firstn_nil. cbn [List.length].
       change (negb (Z.of_nat 0 =? -1)) with true. cbv beta iota.
-      split; [exact NB|]. intros N. destruct (H N) as [W0 E]. cbn [set_errno s_waits s_reqs].
-      split; [exact W0|]. exists false. split; [|intros; discriminate]. rewrite fold_snoc, E. reflexivity.
-  Qed.
-
-  Lemma accinv_fin : forall r s, AccInv s -> AccFin r s.
-  Proof.
-    intros r s (NB & H). split; [exact NB|]. intros N. destruct (H N) as [W0 E]. split; [exact W0|].
-    exists false. split; [exact E | intros; discriminate].
+      split; [exact NB|]. intros N W0. cbn [set_errno s_waits s_reqs] in *. rewrite fold_snoc, (H N W0). reflexivity.
   Qed.
 
   Lemma acc_loop_ok : forall sc left r s, AccInv s ->
     match acc_loop (negb nb0) limit start sc left r s with
-    | (ORet r', s') => AccFin r' s'
+    | (ORet r', s') => AccInv s'
     | _ => False
     end.
   Proof.
     induction sc as [|x sc IH]; intros left r s AI; cbn [acc_loop].
-    - destruct (0 <? left) eqn:C; [|apply accinv_fin; exact AI].
+    - destruct (0 <? left) eqn:C; [|exact AI].
       pose proof (acc_body_ok exhausted left s AI) as B.
       destruct (acc_body (negb nb0) limit start exhausted left s) as [r' s'|l' r' s'].
       + exact B.
       + destruct B as (_ & e & FE & Ee). cbn in FE. inversion FE. unfold ECONNRESET, EAGAIN, EINTR in *. lia.
-    - destruct (0 <? left) eqn:C; [|apply accinv_fin; exact AI].
+    - destruct (0 <? left) eqn:C; [|exact AI].
       pose proof (acc_body_ok x left s AI) as B.
       destruct (acc_body (negb nb0) limit start x left s) as [r' s'|l' r' s'].
       + exact B.
@@ -99,21 +80,20 @@ End Accept.
 
 Lemma run_accept_ok : forall c,
   match run_accept (c_limit c) (c_script c) (init_st c) with
-  | (ORet r, s) => Final18 SAccept (c_nb c) r s
+  | (ORet r, s) => Final18 SAccept (c_nb c) s
   | _ => False
   end.
 Proof.
   intros c. unfold run_accept, enter. change (negb (s_nb (init_st c))) with (negb (c_nb c)).
   set (s1 := if negb (c_nb c) then set_nb (init_st c) true else init_st c).
   assert (AI : AccInv (c_nb c) s1).
-  { unfold s1, init_st. split; [destruct (c_nb c); reflexivity|]. intros N. rewrite N. cbn. auto. }
+  { unfold s1, init_st. split; [destruct (c_nb c); reflexivity|]. intros N _. rewrite N. reflexivity. }
   pose proof (acc_loop_ok (c_nb c) (c_limit c) (s_clock s1) (c_script c) (c_limit c) (-1) s1 AI) as B.
   destruct (acc_loop (negb (c_nb c)) (c_limit c) (s_clock s1) (c_script c) (c_limit c) (-1) s1) as [o s2].
   destruct o as [r| |]; try contradiction. cbn [acc_ret].
   destruct B as (NB & H). unfold Final18, restore. split.
   - destruct (c_nb c); cbn [negb set_nb s_nb]; [exact NB | reflexivity].
-  - intros N. rewrite N. cbn [negb]. destruct (H N) as (W0 & wb & E & Wb). split; [exact W0|].
-    exists wb. split; [exact E|]. intros Hw. destruct (Wb Hw) as [-> L]. split; [reflexivity | exact L].
+  - intros N. rewrite N. cbn [negb]. exact (H N).
 Qed.
 
 (** ** connect *)
@@ -124,16 +104,9 @@ Proof.
   - destruct (e =? EINTR); [discriminate | reflexivity].
 Qed.
 
-Lemma in_progress_not_timedout : forall e, in_progress e = true -> (e =? ETIMEDOUT) = false.
-Proof. intros e. unfold in_progress, EINPROGRESS, EALREADY, EAGAIN, ETIMEDOUT. lia. Qed.
-
-Lemma c18_fold_one : forall sh q,
-  fold_left (c18_step sh) ([] ++ [q]) (true, false) = (true, would_block sh (q_err q)).
-Proof. reflexivity. Qed.
-
 Lemma run_connect_ok : forall c, 1 <= c_limit c -> forallb no_eintr (firstn 1 (c_script c)) = true ->
   match run_connect (c_limit c) (c_script c) (init_st c) with
-  | (ORet r, s) => Final18 SConnect (c_nb c) r s
+  | (ORet r, s) => Final18 SConnect (c_nb c) s
   | _ => False
   end.
 Proof.
@@ -142,34 +115,47 @@ Proof.
   assert (NEx : no_eintr x = true).
   { unfold x. destruct (c_script c) as [|y t]; [reflexivity|]. cbn in NE. now rewrite andb_true_r in NE. }
   assert (L0 : (0 <? c_limit c) = true) by lia. rewrite L0.
-  destruct (c_nb c) eqn:N; cbn [negb].
-  - (* the caller's descriptor is non-blocking *)
-    destruct (fail_errno (snd x)) as [e|] eqn:FE.
-    + rewrite (kcall_fail _ _ _ _ _ _ FE). change (-1 =? 0) with false. cbv beta iota. cbn [s_errno].
-      destruct (in_progress e) eqn:IP.
-      * cbn [s_errno]. change (-1 =? -1) with true. rewrite (in_progress_not_timedout e IP). cbn [andb restore].
-        unfold Final18, init_st. cbn [s_nb s_waits s_reqs s_errno]. cbv [fold_left app c18_step fst snd q_err would_block negb andb orb].
-        rewrite N. split; [reflexivity|]. intros _. split; [reflexivity|]. exists (in_progress e). rewrite IP.
-        split; [reflexivity|]. intros _. split; reflexivity.
-      * rewrite (no_eintr_fail x e NEx FE). cbn [s_errno]. change (-1 =? -1) with true. cbn [andb].
-        destruct (e =? ETIMEDOUT); cbn [restore];
-          unfold Final18, init_st; cbn [set_errno s_nb s_waits s_reqs s_errno]; cbv [fold_left app c18_step fst snd q_err would_block negb andb orb];
-          rewrite N, IP; (split; [reflexivity|]); intros _; (split; [reflexivity|]); exists false;
-          (split; [reflexivity | intros; discriminate]).
-    + rewrite (kcall_succ _ _ _ _ _ FE). cbn [positions flat_map firstn]. rewrite firstn_nil. cbn [List.length].
-      change (Z.of_nat 0 =? 0) with true. cbv beta iota. change (0 =? -1) with false. cbn [andb restore].
-      unfold Final18, init_st. cbn [set_errno s_nb s_waits s_reqs s_errno]. cbv [fold_left app c18_step fst snd q_err would_block negb andb orb].
-      rewrite N. split; [reflexivity|]. intros _. split; [reflexivity|]. exists false.
-      split; [reflexivity | intros; discriminate].
-  - (* blocking descriptor: only the restoration is claimed *)
-    destruct (fail_errno (snd x)) as [e|] eqn:FE.
-    + rewrite (kcall_fail _ _ _ _ _ _ FE). change (-1 =? 0) with false. cbv beta iota. cbn [s_errno].
-      destruct (in_progress e) eqn:IP.
-      * destruct (do_wait (c_limit c) (s_clock (set_nb (init_st c) true)) _) as [[ok left'] s3].
-        destruct ok; cbn [negb].
-        -- destruct (0 <? left'); (cbv beta iota; split; [reflexivity | intros; discriminate]).
-        -- (cbv beta iota; split; [reflexivity | intros; discriminate]).
-      * rewrite (no_eintr_fail x e NEx FE). (cbv beta iota; split; [reflexivity | intros; discriminate]).
-    + rewrite (kcall_succ _ _ _ _ _ FE). cbn [positions flat_map firstn]. rewrite firstn_nil. cbn [List.length].
-      change (Z.of_nat 0 =? 0) with true. cbv beta iota. (cbv beta iota; split; [reflexivity | intros; discriminate]).
+  set (s1 := if negb (c_nb c) then set_nb (init_st c) true else init_st c).
+  assert (NB1 : s_nb s1 = true) by (unfold s1, init_st; destruct (c_nb c); reflexivity).
+  assert (W1 : s_waits s1 = []) by (unfold s1, init_st; destruct (c_nb c); reflexivity).
+  assert (Q1 : s_reqs s1 = []) by (unfold s1, init_st; destruct (c_nb c); reflexivity).
+  (* whatever state the call ends in, restoring gives back the caller's mode *)
+  assert (RST : forall s, s_nb s = true -> s_nb (restore (negb (c_nb c)) s) = c_nb c).
+  { intros s H. unfold restore. destruct (c_nb c); cbn [negb set_nb s_nb]; [exact H | reflexivity]. }
+  assert (RSW : forall s, s_waits (restore (negb (c_nb c)) s) = s_waits s)
+    by (intros s; unfold restore; destruct (negb (c_nb c)); reflexivity).
+  assert (RSQ : forall s, s_reqs (restore (negb (c_nb c)) s) = s_reqs s)
+    by (intros s; unfold restore; destruct (negb (c_nb c)); reflexivity).
+  destruct (fail_errno (snd x)) as [e|] eqn:FE.
+  - rewrite (kcall_fail _ _ _ _ _ _ FE). change (-1 =? 0) with false. cbv beta iota. cbn [s_errno].
+    destruct (in_progress e) eqn:IP.
+    + (* in progress: waits *)
+      unfold do_wait. cbn [s_wfail s_clock s_errno s_nb s_reqs s_moved s_waits].
+      destruct (s_wfail s1) as [|b t]; [|destruct b]; cbn [negb];
+        repeat match goal with |- context [if ?b then _ else _] => destruct b end;
+        (split; [rewrite RST; [reflexivity | exact NB1] |]);
+        intros _ W0; rewrite RSW in W0; cbn [set_errno s_waits] in W0; destruct (s_waits s1); discriminate.
+    + rewrite (no_eintr_fail x e NEx FE). cbn [s_errno]. change (-1 =? -1) with true. cbn [andb].
+      destruct (e =? ETIMEDOUT);
+        (split; [rewrite RST; [reflexivity | exact NB1] |]);
+        intros _ _; rewrite RSQ; cbn [set_errno s_reqs]; rewrite Q1;
+        cbv [fold_left app c18_step fst snd q_err would_block negb andb orb]; rewrite IP; reflexivity.
+  - rewrite (kcall_succ _ _ _ _ _ FE). cbn [positions flat_map firstn]. rewrite firstn_nil. cbn [List.length].
+    change (Z.of_nat 0 =? 0) with true. cbv beta iota. change (0 =? -1) with false. cbn [andb].
+    split; [rewrite RST; [reflexivity | exact NB1] |].
+    intros _ _. rewrite RSQ. cbn [set_errno s_reqs]. rewrite Q1. reflexivity.
+Qed.
+
+(** an interrupted connect never returns in the model either *)
+Lemma run_connect_eintr_stuck : forall c, 1 <= c_limit c ->
+  forallb no_eintr (firstn 1 (c_script c)) = false ->
+  fst (run_connect (c_limit c) (c_script c) (init_st c)) = OStuck.
+Proof.
+  intros c LIM NE. unfold run_connect, enter.
+  assert (L0 : (0 <? c_limit c) = true) by lia. rewrite L0.
+  destruct (c_script c) as [|[dt rsp] t]; [discriminate|]. cbn [firstn forallb] in NE. rewrite andb_true_r in NE.
+  unfold no_eintr in NE. cbn [snd] in NE.
+  destruct rsp; try discriminate.
+  - reflexivity.
+  - assert (e = EINTR) by (destruct (e =? EINTR) eqn:E; [lia | discriminate]). subst e. reflexivity.
 Qed.
